@@ -29,6 +29,7 @@ import (
 	"sync/atomic"
 	"syscall"
 	"time"
+	"verifharness/peers"
 
 	"github.com/pkg/sftp"
 
@@ -86,7 +87,7 @@ type c05Conn struct {
 func c05StartPair(opts ...sftp.ServerOption) (*sftp.Client, func(), error) {
 	c2sR, c2sW := io.Pipe()
 	s2cR, s2cW := io.Pipe()
-	srv, err := sftp.NewServer(c05Conn{c2sR, s2cW}, opts...)
+	srv, err := peers.NewOSServer(c05Conn{c2sR, s2cW}, opts...)
 	if err != nil {
 		return nil, nil, err
 	}
@@ -151,7 +152,7 @@ type c05Run struct {
 }
 
 func c05NewRun(mode string, tree []c05Ent) (*c05Run, error) {
-	base, err := os.MkdirTemp("", "vh-c05-")
+	base, err := lib.MkScratch("vh-c05-")
 	if err != nil {
 		return nil, err
 	}
@@ -200,6 +201,46 @@ func (r *c05Run) close() {
 		r.stop()
 	}
 	os.RemoveAll(r.base)
+}
+
+// escapes says why op must not be run: one of its paths names something outside the scratch directories.
+func (r *c05Run) escapes(op c05Op) string {
+	baseA := ""
+	if r.mode == "rel" {
+		baseA = r.rootA
+	}
+	check := func(base, p string) string {
+		if ok, why := lib.InScratch(base, p); !ok {
+			return why
+		}
+		return ""
+	}
+	paths := []string{op.P, op.Q}
+	if op.K == "symlink" {
+		paths = []string{op.Q}
+		tA, tB := c05LinkText(r.rootA, op.P), c05LinkText(r.rootB, op.P)
+		if op.TAbs {
+			tA, tB = c05Join(r.rootA, op.P), c05Join(r.rootB, op.P)
+		}
+		if ok, why := lib.LinkTargetInScratch(baseA, r.pA(op.Q), tA); !ok {
+			return why
+		}
+		if ok, why := lib.LinkTargetInScratch("", r.pB(op.Q), tB); !ok {
+			return why
+		}
+	}
+	if op.K == "glob" {
+		return "" // patterns over the names of the tree, matched by the client against listings
+	}
+	for _, p := range paths {
+		if why := check(baseA, r.pA(p)); why != "" {
+			return why
+		}
+		if why := check("", r.pB(p)); why != "" {
+			return why
+		}
+	}
+	return ""
 }
 
 // pA is the path the client is given, pB the path package os is given.
@@ -424,7 +465,7 @@ func (r *c05Run) execA(op c05Op) c05Out {
 	case "link":
 		return c05Res(c.Link(p, q))
 	case "symlink":
-		t := op.P
+		t := c05LinkText(r.rootA, op.P)
 		if op.TAbs {
 			t = c05Join(r.rootA, op.P)
 		}
@@ -556,7 +597,7 @@ func (r *c05Run) execB(op c05Op) c05Out {
 	case "link":
 		return c05Res(os.Link(p, q))
 	case "symlink":
-		t := op.P // the link TEXT is what the caller wrote, whatever the working directory
+		t := c05LinkText(r.rootB, op.P) // the link TEXT is what the caller wrote, whatever the working directory
 		if op.TAbs {
 			t = c05Join(r.rootB, op.P)
 		}
@@ -828,6 +869,16 @@ func c05RunSeq(mode string, tree []c05Ent, ops []c05Op, gen *rand.Rand, n int, l
 			selfRef = c05LinkInsideTarget(run.rootB, op.P)
 		}
 
+		// containment (lib/contain.go): an operation whose paths — as the server resolves them on tree A and as
+		// package os resolves them on tree B, symbolic links of the trees followed — leave the scratch directory is
+		// not run on either side
+		if why := run.escapes(op); why != "" {
+			res.in.Ops = res.in.Ops[:len(res.in.Ops)-1]
+			if !light {
+				res.hist[lib.NotRunBucket]++
+			}
+			continue
+		}
 		outA := c05Guard(func() c05Out { return run.execA(op) })
 		outB := run.execB(op)
 		if op.K == "chtimes" { // the tree state Chtimes is about, observed before the snapshots read the files
